@@ -41,8 +41,11 @@ RULE = (
     "the op-based specification over received-update sets, then a full sync. Non-trivial: updates at >=2 replicas and, "
     "before the final sync, merges in both directions around some replica (for orset: around a replica after a remove "
     "that observed an add). store: 2-4 CRDTStore entities, ring or mesh gossip over a scripted lossy network, writes "
-    "through Write events (LWW through get_or_create().set with a real HLC), checked only at a measured gossip "
-    "fixpoint. Non-trivial: >=2 writers on one key and >=1 key merged by gossip on every node. Distinct by case hash."
+    "through Write events (LWW through get_or_create().set with a real HLC over a skewed clock), checked only at a "
+    "measured gossip fixpoint. Non-trivial: >=2 writers on one key and >=1 key merged by gossip on every node. "
+    "Reporting: a state-equality or algebraic-law failure is reported only when all values involved match the "
+    "specification (otherwise the value deviation observed at the same step is the report); deviations that vanish when "
+    "to_dict/from_dict hops are bypassed are attributed to the first round trip that changed a state. Distinct by case hash."
 )
 ASSUMPTIONS = [
     "the receive event's HLC timestamp is the clock state after receive() (read from _last) or the next now()",
@@ -50,8 +53,9 @@ ASSUMPTIONS = [
     "LWW writes carry unique (physical, logical, node) timestamps; ties on (physical, logical) are broken by node id as documented",
     "every replica has a distinct node id and only its owner applies local operations to it",
     "a merge (direct, via to_dict/from_dict, of a delayed or grouped snapshot) delivers exactly the updates the source had received when the state was captured",
-    "store: quiescence = no pairwise merge between gossip peers changes any replica (measured); runs that have not reached it are inconclusive; "
-    "the network is loss-free for the last 12 gossip intervals",
+    "store: quiescence is measured from the run: after the last state change of any store, gossip messages that were sent after that "
+    "instant and delivered (merged without effect) strongly connect all stores; runs that do not reach it are inconclusive; "
+    "the scripted network is loss-free and fast for the last 12 gossip intervals",
     "store/orset: every element is added at most once; only removes issued by the adder after its add are treated as having observed the add",
 ]
 MUST_OBSERVE = ["pairs_checked", "value_checks", "law_checks", "store_fixpoints"]
